@@ -44,15 +44,22 @@ def main(tier_):
         ops = rnd.choice([2, 3, 4])
         kinds = rnd.sample(kinds_all, rnd.randint(1, 5))
         cases.append(dict(id="hist-%d" % i, tree=[], feat={}, trace=False, calls=[dict(op="errtab_concurrent", threads=th, ops=ops, kinds=kinds)]))
+    # several threads consume the same id at the same moment: "called once ... a second call returns NULL" -- at most one winner
+    for i in range(2 if quick else 8):
+        cases.append(dict(id="hist-race-%d" % i, tree=[], feat={}, trace=False, calls=[dict(op="errtab_race_same", threads=4, rounds=3000 if quick else 20000)]))
     for i, n in enumerate([300000] if quick else [300000, 1000000, 1000000]):
         cases.append(dict(id="birthday-%d" % i, tree=[], feat={}, trace=False, calls=[dict(op="errtab_birthday", n=n)]))
     res = run_pv(cases, jobs=6, tag="C16")
     events, nops = [], 0
+    race_rounds = race_multi = 0
     samples = []
     for c, r in zip(cases, res):
         if r.get("status") != "ok" or not r.get("out") or "results" not in r["out"][0]:
             raise ToolError("C16 case failed: %s" % json.dumps(r)[:300])
         x = r["out"][0]["results"][0]
+        if c["id"].startswith("hist-race"):
+            race_rounds += x.get("rounds", 0)
+            race_multi += x.get("multi_winner_rounds", 0)
         if c["id"].startswith("hist"):
             events += history_events(c["id"], x["history"])
             nops += len(x["history"])
@@ -77,7 +84,7 @@ def main(tier_):
             v.violation(dict(check="errtable", what=b["what"], case=b["case"]), "C16: %s (case %s, id %s)" % (b["what"], b["case"], b["id"]),
                         next((c for c in cases if c["id"] == b["case"]), {}))
     rc = v.finish()
-    cov = dict(states=base["distinct"] + tr["tlc"]["distinct"], transitions=base["states"] + tr["tlc"]["states"], traces_validated_against_impl=len(cases), samples=samples,
+    cov = dict(same_id_race=dict(rounds=race_rounds, rounds_with_more_than_one_winner=race_multi), states=base["distinct"] + tr["tlc"]["distinct"], transitions=base["states"] + tr["tlc"]["states"], traces_validated_against_impl=len(cases), samples=samples,
                evaluations=nops + sum(s.get("n", 0) for s in samples if "n" in s), distinct_nontrivial=len(cases),
                rule="history = random (threads 2..6, ops 2..4, error kinds) concurrent run with ids consumed on other threads; birthday = N ids outstanding at once; non-trivial: every history has >= 2 threads and cross-thread consumption",
                exhaustive=bool(base["complete"]), tlc_model_complete=base["complete"], tlc_model_violated=base["violated"], variant_noretry_violated=var["violated"],
